@@ -223,7 +223,12 @@ def run(repo: Repo, rep: Report, tier: str) -> None:
     def _dispatch_body(f: Function, r) -> None:
         _eres["E"] = _dispatch_rules(f, helpers, r, consts)
 
-    with_flatten_fallback(rep, gen, _dispatch_body)
+    def _raise_only_writer(h: Function) -> bool:
+        """helpers that only write `raise ...` lines (safe to inline for the must-raise analysis; return-writing helpers stay calls)"""
+        texts = [norm(c.args[0]) for c in calls_in(h.node) if isinstance(c.func, ast.Attribute) and c.func.attr == "write_line" and c.args]
+        return bool(texts) and not any(t.lstrip("f'\"").startswith(("return", "yield", "async for")) for t in texts)
+
+    with_flatten_fallback(rep, gen, _dispatch_body, select=_raise_only_writer)
     E = _eres.get("E", set())
     for spec, D in D_sets.items():
         fn = repo.func(spec)
